@@ -309,10 +309,108 @@ func checkC16(c *core.Ctx) {
 		}
 	})
 
+	// ---- several files redefining the same chord and attribute: the file given last wins (files are
+	// named so that command-line order is the reverse of their alphabetical order)
+	c.Stream("fileorder", c.N(40, 600), func(i int, r *rand.Rand) {
+		k := 2 + r.Intn(3)
+		var args []string
+		var lastSemis []int
+		for j := 0; j < k; j++ {
+			a := model.RandInterval(r, 9)
+			b := model.RandInterval(r, 13)
+			sa, _ := theory.Size(a.N, a.Q)
+			sb, _ := theory.Size(b.N, b.Q)
+			if sa < 0 {
+				a, sa = theory.Interval{N: 3, Q: theory.Major}, 4
+			}
+			if sb < 0 {
+				b, sb = theory.Interval{N: 5, Q: theory.Perfect}, 7
+			}
+			name := fmt.Sprintf("order-%c-%d.yml", 'z'-j, i)
+			af := c.Scratch.File("attr-"+name, attrsYAML([]userAttr{{Name: "Zfo", Degree: a.Notation()}}))
+			cf := c.Scratch.File("chord-"+name, chordsYAML([]userChord{{Name: "Zfileorder", Display: "zfo", Attrs: []string{"Perfect1", "Zfo", theory.Interval{N: b.N, Q: b.Q}.String()}}}))
+			// the built-in attribute list only has the five basic qualities up to 19: fall back to a plain one otherwise
+			if b.Q == theory.DoublyAugmented || b.Q == theory.DoublyDiminished {
+				cf = c.Scratch.File("chord-"+name, chordsYAML([]userChord{{Name: "Zfileorder", Display: "zfo", Attrs: []string{"Perfect1", "Zfo", "Perfect5"}}}))
+				sb = 7
+			}
+			if r.Intn(2) == 0 {
+				args = append(args, "--attr", af, "--chord", cf)
+			} else {
+				args = append(args, "--chord="+cf, "--attr="+af)
+			}
+			lastSemis = []int{0, sa, sb}
+		}
+		for _, key := range []string{"Zfileorder", "zfo"} {
+			got, _, why, det := soundedKeys(c, key, args)
+			if why == "infra" {
+				return
+			}
+			if why != "" {
+				c.Violate("fileorder", i, "fileorder:"+why[:min(len(why), 8)], fmt.Sprintf("%d dictionary files redefining one chord: %q cannot be played: %s", k, key, why), det)
+				return
+			}
+			exp := []int{48}
+			for _, x := range lastSemis {
+				exp = append(exp, 60+x)
+			}
+			if !eqInts(sortedInts(got), sortedInts(exp)) {
+				c.Violate("fileorder", i, "fileorder:notes", fmt.Sprintf("%d files redefine chord %q and its attribute; the last file given says %v, sounded %v (args: %s)", k, key, sortedInts(exp), sortedInts(got), strings.Join(args, " ")), nil)
+				return
+			}
+		}
+		c.Nontrivial(fmt.Sprintf("fileorder%d", i))
+	})
+
+	// ---- a very deep inheritance chain (the depth of `extends` is not bounded by the property)
+	c.Stream("deepchain", c.N(6, 60), func(i int, r *rand.Rand) {
+		depth := 20 + r.Intn(120)
+		var as []userAttr
+		var cs []userChord
+		var semis []int
+		for j := 0; j < depth; j++ {
+			as = append(as, userAttr{Name: fmt.Sprintf("Zd%d", j), Degree: strconvItoa(1 + j%13)})
+			s, _ := theory.Size(1+j%13, map[bool]theory.Quality{true: theory.Perfect, false: theory.Major}[(j%13)%7 == 0 || (j%13)%7 == 3 || (j%13)%7 == 4])
+			semis = append(semis, s)
+			uc := userChord{Name: fmt.Sprintf("Zdeep%d", j), Display: fmt.Sprintf("zdeep%d", j), Attrs: []string{fmt.Sprintf("Zd%d", j)}}
+			if j > 0 {
+				uc.Extends = fmt.Sprintf("Zdeep%d", j-1)
+			}
+			cs = append(cs, uc)
+		}
+		if r.Intn(2) == 0 { // children first
+			for a, b := 0, len(cs)-1; a < b; a, b = a+1, b-1 {
+				cs[a], cs[b] = cs[b], cs[a]
+			}
+		}
+		args := []string{"--attr", c.Scratch.File("deep-attr.yml", attrsYAML(as)), "--chord", c.Scratch.File("deep-chord.yml", chordsYAML(cs))}
+		leaf := fmt.Sprintf("zdeep%d", depth-1)
+		got, _, why, det := soundedKeys(c, leaf, args)
+		if why == "infra" {
+			return
+		}
+		if why != "" {
+			c.Violate("deepchain", i, "deepchain:"+why[:min(len(why), 8)], fmt.Sprintf("a consistent chain of %d extends cannot be played: %s", depth, why), det)
+			return
+		}
+		exp := []int{48}
+		for _, x := range semis {
+			exp = append(exp, 60+x)
+		}
+		if !eqInts(sortedInts(got), sortedInts(exp)) {
+			c.Violate("deepchain", i, "deepchain:notes", fmt.Sprintf("chord at the end of a chain of %d extends sounds %d notes, its ancestors define %d", depth, len(got)-1, len(exp)-1), nil)
+			return
+		}
+		c.Seen("chain_depths", fmt.Sprint(depth))
+		c.Nontrivial(fmt.Sprintf("deep%d", depth))
+	})
+
 	// ---- user dictionaries
 	c.Stream("forest", c.N(600, 15000), func(i int, r *rand.Rand) { userForestCase(c, i, r) })
 	c.Stream("broken", c.N(600, 15000), func(i int, r *rand.Rand) { brokenDictCase(c, i, r) })
 }
+
+func strconvItoa(i int) string { return fmt.Sprint(i) }
 
 func asList(v any) []any {
 	l, _ := v.([]any)
